@@ -35,24 +35,26 @@ type FSEvent struct {
 
 // FSModel is the per-path filesystem state.
 type FSModel struct {
-	Nodes     map[string]*FSNode // key: path text (concrete string, or term text for symbolic paths)
-	PathVals  map[string]value
-	Dirs      map[string]bool
-	Events    []FSEvent
-	Step      int
-	CrashAt   Sym
-	FaultAt   Sym
-	Crashed   bool
-	Faulted   int // step at which a fault was injected, -1 if none
-	FaultOp   string
-	ntmp      int
-	SrcRoot   string // on-disk directory standing in for the embed.FS
-	BaseClass int    // 0 absent, 1 directory, 2 regular file, 3 unreadable
-	HomeErr   bool
-	Home, Cwd value
-	AbsOf     map[string]value
-	Mode      string // "fault" (crash+fault exploration) or "trace"
-	WriteMid  bool
+	Nodes      map[string]*FSNode // key: path text (concrete string, or term text for symbolic paths)
+	PathVals   map[string]value
+	Dirs       map[string]bool
+	Events     []FSEvent
+	Step       int
+	CrashAt    Sym
+	FaultAt    Sym
+	Crashed    bool
+	CrashStep  int
+	ShortWrite bool
+	Faulted    int // step at which a fault was injected, -1 if none
+	FaultOp    string
+	ntmp       int
+	SrcRoot    string // on-disk directory standing in for the embed.FS
+	BaseClass  int    // 0 absent, 1 directory, 2 regular file, 3 unreadable
+	HomeErr    bool
+	Home, Cwd  value
+	AbsOf      map[string]value
+	Mode       string // "fault" (crash+fault exploration) or "trace"
+	WriteMid   bool
 }
 
 func pathKey(v value) string {
@@ -79,6 +81,7 @@ func (m *FSModel) step(ps *PathState, op string) (fail bool) {
 	}
 	if ps.Branch(Sym{S: SBool, T: fmt.Sprintf("(= %s %d)", m.CrashAt.T, n)}) {
 		m.Crashed = true
+		m.CrashStep = n
 		panic(pathEnd{fmt.Sprintf("crash before step %d (%s)", n, op)})
 	}
 	if m.Faulted < 0 && ps.Branch(Sym{S: SBool, T: fmt.Sprintf("(= %s %d)", m.FaultAt.T, n)}) {
@@ -234,6 +237,7 @@ func InstallFSStubs(e *Engine, srcRoot string) {
 		if m.step(ps, "Write") {
 			// a failing write may have appended a strict prefix
 			if ps.Choice(2, "shortwrite") == 1 && len(data) > 0 {
+				m.ShortWrite = true
 				node.Content = "partial:" + h
 				m.event("write-short", f.name, nil, h)
 				return tuple{len(data) / 2, fsErr("Write", m.Step-1)}
@@ -248,6 +252,7 @@ func InstallFSStubs(e *Engine, srcRoot string) {
 			m.Step++
 			if ps.Branch(Sym{S: SBool, T: fmt.Sprintf("(= %s %d)", m.CrashAt.T, n)}) {
 				m.Crashed = true
+				m.CrashStep = n
 				m.event("write-interrupted", f.name, nil, h)
 				panic(pathEnd{fmt.Sprintf("crash inside Write (step %d)", n)})
 			}
@@ -333,6 +338,7 @@ func InstallFSStubs(e *Engine, srcRoot string) {
 			node.Content = "partial:" + h
 			if ps.Branch(Sym{S: SBool, T: fmt.Sprintf("(= %s %d)", m.CrashAt.T, n)}) {
 				m.Crashed = true
+				m.CrashStep = n
 				panic(pathEnd{"crash inside WriteFile"})
 			}
 		}
